@@ -58,4 +58,16 @@ func (r *RtRefreshManager) loop()
   loop over waiting invariant $col - $ans == len(waiting) - $key && all(i, 0, len(waiting), waiting[i] != nil)
   ghost at append(waiting): $col = $col + 1
   ghost at send(w): $ans = $ans + 1
+
+# The request channel is UNBUFFERED: a request is either taken by the loop (which
+# then answers it) or still in the sender's hands when its context ends (the
+# sender then answers it itself). A buffered channel would let a request sit in
+# the buffer when the loop exits: nobody would ever answer it.
+func NewRtRefreshManager(h host.Host, rt *kbucket.RoutingTable, autoRefresh bool, refreshKeyGenFnc func(cpl uint) (string, error), refreshQueryFnc func(ctx context.Context, key string) error, refreshPingFnc func(ctx context.Context, p peer.ID) error, refreshQueryTimeout time.Duration, refreshInterval time.Duration, successfulOutboundQueryGracePeriod time.Duration, refreshDoneCh chan struct{}) (*RtRefreshManager, error)
+  props C12 C14
+  constructor
+  modifies *
+  ensures [request-channel-unbuffered] result1 == nil && result0 != nil && result0.triggerRefresh != nil && cap(result0.triggerRefresh) == 0
+  ensures [functions-installed] result0.refreshQueryFnc == refreshQueryFnc && result0.refreshPingFnc == refreshPingFnc && result0.refreshKeyGenFnc == refreshKeyGenFnc && result0.rt == rt && result0.enableAutoRefresh == autoRefresh
+  ensures [timing-installed] result0.refreshQueryTimeout == refreshQueryTimeout && result0.refreshInterval == refreshInterval && result0.successfulOutboundQueryGracePeriod == successfulOutboundQueryGracePeriod
 @*/
